@@ -247,6 +247,10 @@ impl BlockManager {
         // Temporarily take pickers to make borrow checker happy.
         let mut pickers = std::mem::take(&mut state.eviction_pickers);
 
+        // Deterministic notification order for verification harnesses (a `HashSet` iterates in a per-process order).
+        #[cfg(feature = "verif")]
+        let evictable_blocks: std::collections::BTreeSet<BlockId> = evictable_blocks.into_iter().collect();
+
         // Notify pickers.
         for block in evictable_blocks {
             state.evictable_blocks.insert(block);
